@@ -115,3 +115,38 @@ func Dataflow(opt Options) []Query {
 	}
 	return out
 }
+
+// Calls enumerates function calls at every arity from none to two, for the functions the translator knows and one it
+// does not, in projection and predicate position, plus projections that stage several bound paths at once (the order in
+// which the translator walks its own maps must not show in the statement).
+func Calls() []Query {
+	functions := []string{"head", "tail", "last", "nodes", "relationships", "length", "size", "startNode", "endNode", "type", "id", "labels",
+		"toLower", "toUpper", "toString", "toInteger", "coalesce", "count", "collect", "sum", "min", "max", "avg", "exists", "keys", "properties", "split", "abs", "nosuchfunction"}
+	args := [][]string{{}, {"p"}, {"r"}, {"n"}, {"n.name"}, {"n.list"}, {"p", "n"}, {"n.name", "'a'"}}
+	var out []Query
+	seen := map[string]bool{}
+	add := func(text string, feats ...string) {
+		if !seen[text] {
+			seen[text] = true
+			out = append(out, Query{Text: text, Features: feats})
+		}
+	}
+	for _, f := range functions {
+		for _, a := range args {
+			call := f + "(" + strings.Join(a, ", ") + ")"
+			add("MATCH p = (n)-[r]->(m) RETURN "+call, "call:"+f, fmt.Sprintf("arity:%d", len(a)), "position:projection")
+			add("MATCH p = (n)-[r]->(m) WHERE "+call+" = 1 RETURN n", "call:"+f, fmt.Sprintf("arity:%d", len(a)), "position:predicate")
+		}
+	}
+	for _, t := range []string{
+		"MATCH p1 = (a:NodeKind1)-[:EdgeKind1]->(b:NodeKind2), p2 = (c:NodeKind2)-[:EdgeKind2]->(d:NodeKind1) RETURN p1, nodes(p1), p2, nodes(p2)",
+		"MATCH p1 = (a:NodeKind1)-[:EdgeKind1]->(b:NodeKind2), p2 = (c:NodeKind2)-[:EdgeKind2]->(d:NodeKind1), p3 = (e)-[:EdgeKind1]->(f) RETURN p1, p2, p3, relationships(p1), relationships(p2), relationships(p3)",
+		"MATCH p1 = (a)-[:EdgeKind1*1..]->(b) MATCH p2 = (b)-[:EdgeKind2*1..]->(c) RETURN p1, length(p1), p2, length(p2)",
+		"MATCH p1 = (a)-[:EdgeKind1]->(b) MATCH p2 = (b)-[:EdgeKind2]->(c) WITH p1, p2 RETURN nodes(p1), nodes(p2), p2, p1",
+		"MATCH (a {name: 'a', v: 1, b: true, other: 'x'})-[r {v: 1, name: 'a', w: 2}]->(b {v: 2, name: 'b'}) RETURN a, r, b",
+		"MATCH (a)-[r]->(b) RETURN {x: a.name, y: b.name, z: r.v, w: id(a)} AS m, [a.name, b.name, r.v] AS l",
+	} {
+		add(t, "several-paths-or-maps")
+	}
+	return out
+}
